@@ -8,6 +8,7 @@ import sys
 import tempfile
 from pathlib import Path
 
+from harness import ref_text as RT
 from harness import core, gen_db as GD, gen_text as GT, impl_text as IT, observe as O, speller as SP
 from harness import parse_common as PC
 from harness.driver import Driver, DriverError
@@ -90,7 +91,7 @@ def main(tier, seed):
     n = 60 if not ctx.thorough else 1200
     for k in range(n):
         r2 = random.Random(f'{seed}:{k}')
-        spec = SP.normalise_for_spelling(GD.gen_spec(r2, wild=False, max_tables=2), IT.norm_impl)
+        spec = SP.normalise_for_spelling(GD.gen_spec(r2, wild=False, max_tables=2), RT.ref_norm)
         if SP.spellable(spec):
             texts.append(SP.spell(spec, r2, {'varied': True})[0])
     texts += ['', 'Table é {\n "日本" int [note: \'ü😀\']\n}\n', 'Table t {\n id int\n', 'Table t {\n id int [k: \'v\']\n}\n',
